@@ -29,7 +29,7 @@ def cf_mc(wd):
             raise MachineryError(f"CFMachine: {v} violated\n" + r["out"][-2000:])
         tlc_ok(r, "CFMachine")
         return {"generated": r["generated"], "distinct": r["distinct"], "invariants": INVS, "family": "A3"}
-    return cached("cf-mc-A3", go)
+    return cached("cf-mc-A3", go, module="CFMachine")
 
 
 def warm():
